@@ -26,8 +26,14 @@ def _same(a, b):
                                                  np.ascontiguousarray(b).view(np.uint64))
 
 
-def _check_stack(T, N, W, seed=0, inputs=None):
+def _check_stack(T, N, W, seed=0, inputs=None, first=None):
     from fast_ticc import data_preparation as dp
+    if first:
+        # call history of the witness: another geometry stacked first, in this process
+        try:
+            dp.stack_training_data(_payload(seed + 17, (int(first['T']), int(first['N'])), inputs, 'e'), int(first['W']))
+        except Exception:
+            pass
     data = _payload(seed, (T, N), inputs)
     keep = data.copy()
     out = dp.stack_training_data(data, W)
@@ -49,7 +55,8 @@ def replay(w):
     obs, sig = {}, None
     try:
         if ob.startswith('stack_'):
-            sig, obs = _check_stack(int(n['T']), int(n['N']), int(n.get('W', w['inputs'].get('W', 1))), inputs=w['inputs'])
+            sig, obs = _check_stack(int(n['T']), int(n['N']), int(n.get('W', w['inputs'].get('W', 1))), inputs=w['inputs'],
+                                    first=n.get('first'))
         elif ob == 'multi_is_concatenation_in_order':
             W, N, lens = int(n['W']), int(n['N']), [int(x) for x in n['lens']]
             series = [_payload(s + 1, (L, N), w['inputs'], 'd%d' % s) for s, L in enumerate(lens)]
@@ -93,7 +100,7 @@ def validate(witnesses):
         n = w.get('notes') or {}
         if 'shape' in w.get('outputs', {}) and 'T' in n and 'W' in n:
             T, N, W = int(n['T']), int(n['N']), int(n['W'])
-            sig, obs = _check_stack(T, N, W, seed=checked)
+            sig, obs = _check_stack(T, N, W, seed=checked, first=n.get('first'))
             out = dp.stack_training_data(_payload(0, (T, N)), W)
             checked += 1
             if sig is None and list(out.shape) == [int(x) for x in w['outputs']['shape']]:
